@@ -712,6 +712,31 @@ func (j *judgeCtx) checkPause() {
 					}
 				}
 			}
+			// jobs still in the queue when Pause returned: the dispatcher may be between its
+			// status re-check and its dequeue for one job (per event loop; a loop of an earlier
+			// run can still be draining its last signal after a Restart), so one job per loop may
+			// leave the queue after the return and start; any further one was pending, not dispatched
+			loops := 1
+			for _, o := range j.lcalls {
+				if o.K == opRestart && o.Inv < c.Inv {
+					loops++
+				}
+			}
+			late := 0
+			for _, q := range j.r.qevs {
+				if q.K != 2 || q.W != 0 || q.Seq <= c.Ret || q.Seq >= end || q.Sub < 0 || q.Sub >= len(wd.subs) {
+					continue
+				}
+				for _, e := range wd.subs[q.Sub].Entries {
+					if e > q.Seq && e < end {
+						late++
+						if late > loops {
+							j.add("C09.b", e, "job %d was still in the queue when Pause returned at %d (dequeued at %d, the %d. such job, %d event loop(s)) and its worker function started at %d before any Resume/Restart: it was pending, not dispatched", q.Sub, c.Ret, q.Seq, late, loops, e)
+						}
+						break
+					}
+				}
+			}
 			lim := j.maxLimit(oldest, c.Ret)
 			started := 0
 			for _, f := range j.r.fns {
